@@ -273,7 +273,7 @@ def run_property(pid, tier, seed, update_lock=False, only=None, verbose=False):
         if confirmed is not None:
             hit = None
             for k in known:
-                if k.get("status") == "known" and k.get("obligation") == name and _match_known(k, confirmed):
+                if k.get("status") == "known" and _same_obligation(k.get("obligation"), name) and _match_known(k, confirmed):
                     hit = k
                     break
             if hit is not None:
@@ -458,6 +458,18 @@ def run_property(pid, tier, seed, update_lock=False, only=None, verbose=False):
             print(f"CHECKER-ERROR locked obligation no longer generated: {m}")
         return 3
     return 0
+
+
+def _same_obligation(pattern, name):
+    """A known finding names one obligation; for stand-in obligations whose name contains the corpus group chosen by
+    the tier/seed the group may be written as `*` (the finding is then pinned down by its `match` strings)."""
+    if pattern == name:
+        return True
+    if pattern and "*" in pattern:
+        import fnmatch
+
+        return fnmatch.fnmatchcase(name, pattern.replace("[", "[[]"))
+    return False
 
 
 def _match_known(k, confirmed):
